@@ -1288,6 +1288,8 @@ class Interp:
         raise Unsupported(f"truthiness of {type(v).__name__} at {what}")
 
     def _unkey(self, k):
+        if isinstance(k, IdentKey) and k.sym is not None:
+            return k.sym
         if isinstance(k, str):
             return Tmpl.lit(k)
         if isinstance(k, tuple) and k and k[0] == "sym":
@@ -2219,12 +2221,20 @@ def _isnum(v):
 _SYMS: dict = {}
 
 
+class IdentKey(str):
+    """A dict/set key that is the text of a DSL identifier: equal to (and hashing like) the plain string, but it
+    remembers the symbol so that iterating the container gives the identifier back with its provenance."""
+    sym = None
+
+
 def _key(k):
     if isinstance(k, Tmpl):
         return k.text()
     if isinstance(k, Sym):
         if k.kind == "ident":
-            return k.name
+            ik = IdentKey(k.name)
+            ik.sym = k
+            return ik
         _SYMS[k.uid] = k
         return ("sym", k.uid)
     return k
